@@ -9,6 +9,11 @@ func flatten(sc *Scn) *Scn {
 		return nil
 	}
 	for _, n := range sc.Nodes {
+		for _, c := range append(append([]Conn(nil), n.Conns...), n.LateConns...) {
+			if n.Kind == "flow" && c.To >= n.ID {
+				return nil // a flow reachable from itself has no finite flattening
+			}
+		}
 		if len(n.LateConns) > 0 {
 			return nil // tables that change between runs are compared with the model only
 		}
